@@ -180,6 +180,12 @@ func (s RateLimitedTokenRequestState) FinalizeToken(encryptedtokenResponse []byt
 
 // https://ietf-wg-privacypass.github.io/draft-ietf-privacypass-rate-limit-tokens/draft-ietf-privacypass-rate-limit-tokens.html#name-client-to-attester-request
 func (c RateLimitedClient) CreateTokenRequest(challenge, nonce, blindKeyEnc []byte, tokenKeyID []byte, tokenKey *rsa.PublicKey, originName string, nameKey EncapKey) (RateLimitedTokenRequestState, error) {
+	// The token has fixed-width fields: with a nonce or key ID of another length the finalized token would not
+	// carry the request's values
+	if len(nonce) != 32 || len(tokenKeyID) != 32 {
+		return RateLimitedTokenRequestState{}, fmt.Errorf("invalid nonce or token key ID length")
+	}
+
 	blindKey, err := ecdsa.CreateKey(c.curve, blindKeyEnc)
 	if err != nil {
 		return RateLimitedTokenRequestState{}, err
